@@ -153,7 +153,8 @@ def ob_map(pre: int, ki: int, ti: int, attr: int) -> bool:
                     return True          # this back-end cannot hold that value/key: pre-state not constructible
                 model[k] = ("ready", v)
             elif kind == 2:
-                if not c.store_metadata(dict(query=k, status="evaluation", attributes=({"x": "v"} if ci in (9, 11) else {}))):
+                if not c.store_metadata(dict(query=k, status="evaluation", type_identifier="text", message="", log=[],
+                                             attributes=({"x": "v"} if ci in (9, 11) else {}))):
                     return True
                 model[k] = ("meta", None)
             elif kind == 3:
